@@ -413,13 +413,29 @@ func checkQueues(c *Ctx, e *ownEngine) {
 		}
 	}
 	okReader, okJoin := false, false
+	// the goroutines the starter spawns: closures, or methods/functions started with go
+	joined := map[*ssa.Function]bool{}
+	var goFns []*ssa.Function
+	for _, a := range starter.AnonFuncs {
+		goFns = append(goFns, a)
+	}
+	eachInstr(starter, func(_ *ssa.BasicBlock, _ int, in ssa.Instruction) {
+		if g, ok := in.(*ssa.Go); ok {
+			if f := calleeFn(&g.Call); f != nil && f.Blocks != nil && isModFn(f) {
+				goFns = append(goFns, f)
+			}
+		}
+	})
 	eachInstr(starter, func(_ *ssa.BasicBlock, _ int, in ssa.Instruction) {
 		if call, ok := in.(*ssa.Call); ok && isCallToFn(call, readerFns...) && instrDominates(in, drainCall) {
 			okReader = true
 		}
 		if u, ok := in.(*ssa.UnOp); ok && u.Op == token.ARROW && instrDominates(in, drainCall) {
 			// channel closed by a goroutine of this function after the writer loop returned
-			for _, a := range starter.AnonFuncs {
+			if !localLatchClosedByGoroutine(starter, u.X) {
+				return
+			}
+			for _, a := range goFns {
 				var wcall, cl ssa.Instruction
 				eachInstr(a, func(_ *ssa.BasicBlock, _ int, x ssa.Instruction) {
 					if isCallToFn(x, writerFns...) {
@@ -431,6 +447,7 @@ func checkQueues(c *Ctx, e *ownEngine) {
 				})
 				if wcall != nil && cl != nil && instrDominates(wcall, cl) {
 					okJoin = true
+					joined[a] = true
 				}
 			}
 		}
@@ -480,7 +497,7 @@ func checkQueues(c *Ctx, e *ownEngine) {
 				// the only callers of the writer loop are the joined goroutine
 				only := true
 				for _, ed := range p.callersOf(op.Fn) {
-					if topFn(ed.Caller.Func) != starter {
+					if topFn(ed.Caller.Func) != starter && !joined[ed.Caller.Func] {
 						only = false
 					}
 				}
@@ -542,6 +559,78 @@ func checkQueues(c *Ctx, e *ownEngine) {
 	}
 	c.Expect("R4", 5)
 	c.Expect("R5", 2)
+}
+
+// atomicWrapper: a module struct type (or pointer to one) whose only field is an atomic counter.
+func atomicWrapper(t types.Type) bool {
+	st, ok := deref(t).Underlying().(*types.Struct)
+	if !ok || st.NumFields() != 1 {
+		return false
+	}
+	nt := namedOf(deref(t))
+	return nt != nil && nt.Obj().Pkg() != nil && strings.HasPrefix(nt.Obj().Pkg().Path(), modPath) && typeIsAtomic(st.Field(0).Type())
+}
+
+// counterWrapperOp classifies a method of a counter wrapper: "deczero" - it decrements the atomic once and every return
+// is "the result == 0"; "store" - it stores its (converted) parameter into the atomic; "" otherwise.
+func counterWrapperOp(g *ssa.Function) string {
+	if g == nil || g.Blocks == nil || g.Signature.Recv() == nil || !atomicWrapper(g.Signature.Recv().Type()) {
+		return ""
+	}
+	var decs, stores []*ssa.Call
+	other := false
+	eachInstr(g, func(_ *ssa.BasicBlock, _ int, in ssa.Instruction) {
+		call, ok := in.(*ssa.Call)
+		if !ok {
+			return
+		}
+		f := calleeFn(call.Common())
+		if f == nil || len(call.Call.Args) == 0 || !typeIsAtomic(call.Call.Args[0].Type()) {
+			other = true
+			return
+		}
+		switch f.Name() {
+		case "Dec":
+			decs = append(decs, call)
+		case "Store":
+			stores = append(stores, call)
+		default:
+			other = true
+		}
+	})
+	if other {
+		return ""
+	}
+	if len(decs) == 1 && len(stores) == 0 {
+		ok := true
+		eachInstr(g, func(_ *ssa.BasicBlock, _ int, in ssa.Instruction) {
+			ret, isRet := in.(*ssa.Return)
+			if !isRet {
+				return
+			}
+			if len(ret.Results) != 1 {
+				ok = false
+				return
+			}
+			bo, isBo := ret.Results[0].(*ssa.BinOp)
+			if !isBo || bo.Op != token.EQL || bo.X != ssa.Value(decs[0]) {
+				ok = false
+				return
+			}
+			if z, isC := constInt(bo.Y); !isC || z != 0 {
+				ok = false
+			}
+		})
+		if ok {
+			return "deczero"
+		}
+	}
+	if len(stores) == 1 && len(decs) == 0 && len(g.Params) == 2 {
+		if stripConv(stores[0].Call.Args[1]) == ssa.Value(g.Params[1]) {
+			return "store"
+		}
+	}
+	return ""
 }
 
 // drainCovered: the request queues that a call of g with these arguments drains - the receive cases of g's
@@ -663,7 +752,7 @@ func checkChildCounters(c *Ctx, e *ownEngine, rule string) {
 			if st, ok := nt.Underlying().(*types.Struct); ok {
 				for i := 0; i < st.NumFields(); i++ {
 					f := st.Field(i)
-					if typeIsAtomic(f.Type()) {
+					if typeIsAtomic(f.Type()) || atomicWrapper(f.Type()) {
 						cw = f
 					}
 					if sl, ok := f.Type().Underlying().(*types.Slice); ok && isReqType(sl.Elem()) {
@@ -699,11 +788,24 @@ func checkChildCounters(c *Ctx, e *ownEngine, rule string) {
 		n++
 		// (iii) onChildDone: completes r.raw exactly under Dec()==0
 		var dec *ssa.Call
+		decIsZeroTest := false // the call itself answers "was this the last one" (a counter wrapper's method)
+		isCW := func(v ssa.Value) bool {
+			if f, _ := loadedField(v); f == cw {
+				return true
+			}
+			f, _ := fieldAddr(v)
+			return f == cw
+		}
 		eachInstr(done, func(_ *ssa.BasicBlock, _ int, in ssa.Instruction) {
-			if call, ok := in.(*ssa.Call); ok && calleeFn(call.Common()) != nil && calleeFn(call.Common()).Name() == "Dec" {
-				if f, _ := loadedField(call.Call.Args[0]); f == cw {
-					dec = call
-				}
+			call, ok := in.(*ssa.Call)
+			if !ok || calleeFn(call.Common()) == nil || len(call.Call.Args) == 0 || !isCW(call.Call.Args[0]) {
+				return
+			}
+			g := calleeFn(call.Common())
+			if g.Name() == "Dec" && typeIsAtomic(cw.Type()) {
+				dec = call
+			} else if counterWrapperOp(g) == "deczero" {
+				dec, decIsZeroTest = call, true
 			}
 		})
 		site := tn + ".onChildDone"
@@ -713,7 +815,11 @@ func checkChildCounters(c *Ctx, e *ownEngine, rule string) {
 			okZero := false
 			var zeroBlock *ssa.BasicBlock
 			for _, r := range *dec.Referrers() {
-				if bo, ok := r.(*ssa.BinOp); ok && bo.Op == token.EQL {
+				if iff, ok := r.(*ssa.If); ok && decIsZeroTest {
+					okZero = true
+					zeroBlock = iff.Block().Succs[0]
+				}
+				if bo, ok := r.(*ssa.BinOp); ok && bo.Op == token.EQL && !decIsZeroTest {
 					if z, isC := constInt(bo.Y); isC && z == 0 {
 						for _, u := range *bo.Referrers() {
 							if iff, ok := u.(*ssa.If); ok {
@@ -758,8 +864,8 @@ func checkChildCounters(c *Ctx, e *ownEngine, rule string) {
 		eachInstr(split, func(b *ssa.BasicBlock, _ int, in ssa.Instruction) {
 			switch x := in.(type) {
 			case *ssa.Call:
-				if g := calleeFn(x.Common()); g != nil && g.Name() == "Store" && len(x.Call.Args) == 2 {
-					if f, _ := loadedField(x.Call.Args[0]); f == cw {
+				if g := calleeFn(x.Common()); g != nil && len(x.Call.Args) == 2 && isCW(x.Call.Args[0]) {
+					if (g.Name() == "Store" && typeIsAtomic(cw.Type())) || counterWrapperOp(g) == "store" {
 						storeCW = x
 					}
 				}
